@@ -242,8 +242,9 @@ func (p *FSM) Lookup(l interface{}) (interface{}, error) {
 		db := p.pebble.Load()
 		return lookup(db, req)
 	case IteratorRequest:
-		db := p.pebble.Load()
-		return iteratorLookup(db, req.RangeOp)
+		// The returned sequence is consumed lazily, possibly after a snapshot recovery has replaced (and closed)
+		// the DB loaded here, resolve the DB when the sequence is consumed.
+		return iteratorLookup(currentDB{p}, req.RangeOp)
 	case SnapshotRequest:
 		snapshot := p.pebble.Load().NewSnapshot()
 		defer snapshot.Close()
@@ -534,3 +535,12 @@ func makeLoggingEventListener(logger *zap.SugaredLogger) pebble.EventListener {
 		},
 	}
 }
+
+// currentDB is a pebble.Reader that resolves the DB of the FSM at the time of use.
+type currentDB struct{ fsm *FSM }
+
+func (c currentDB) Get(key []byte) ([]byte, io.Closer, error) { return c.fsm.pebble.Load().Get(key) }
+func (c currentDB) NewIter(o *pebble.IterOptions) *pebble.Iterator {
+	return c.fsm.pebble.Load().NewIter(o)
+}
+func (c currentDB) Close() error { return nil }
